@@ -271,7 +271,7 @@ func unhex(s string) []byte { b, _ := hex.DecodeString(s); return b }
 
 // c11Vectors: the independent Rust implementation's vectors are reproduced byte for byte.
 func c11Vectors(c *h.Ctx) {
-	raw, err := os.ReadFile("/repo/tokens/batched/batched-issuance-test-vectors-rust.json")
+	raw, err := os.ReadFile(repoDir() + "/tokens/batched/batched-issuance-test-vectors-rust.json")
 	if err != nil {
 		c.Violation("the shipped Rust interop vectors are missing", nil)
 		return
